@@ -6,9 +6,52 @@ use crate::c38::TmpFile;
 use rten::verif::{Constant, Graph, Node};
 use rten::{DataType, Dimension, Model, ModelOptions, NodeId, RunOptions, ThreadPool, Value, ValueOrView, ValueType, ValueView};
 use rten_tensor::prelude::*;
-use rten_tensor::{Tensor, TensorView};
+use rten_tensor::{Storage, Tensor, TensorView};
 use std::sync::Arc;
 use vcommon::*;
+
+// ---------------------------------------------------------------- panics
+
+static LAST_PANIC: std::sync::Mutex<Option<String>> = std::sync::Mutex::new(None);
+
+/// Panic hook for the child: like `vcommon::quiet_panics`, but when the panic
+/// is raised inside the standard library or a dependency (capacity overflow,
+/// slice index, unwrap on None ...) the first rten frame of the backtrace is
+/// appended, so that the signature names the rten code that asked for it.
+pub fn install_child_panic_hook() {
+    std::panic::set_hook(Box::new(|info| {
+        let msg = if let Some(s) = info.payload().downcast_ref::<&str>() {
+            s.to_string()
+        } else if let Some(s) = info.payload().downcast_ref::<String>() {
+            s.clone()
+        } else {
+            "<non-string panic>".to_string()
+        };
+        let loc = info.location().map(|l| format!("{}:{}", l.file(), l.line())).unwrap_or_default();
+        let mut text = format!("{} @ {}", msg, loc);
+        if !loc.starts_with("/repo/") {
+            let bt = std::backtrace::Backtrace::force_capture().to_string();
+            if let Some(frame) = bt.lines().map(|l| l.trim()).find(|l| l.starts_with("at /repo/")) {
+                let f = frame.trim_start_matches("at ");
+                // file:line:col -> file:line
+                let mut parts = f.rsplitn(2, ':');
+                let _col = parts.next();
+                text.push_str(&format!(" [first rten frame {}]", parts.next().unwrap_or(f)));
+            }
+        }
+        if let Ok(mut slot) = LAST_PANIC.lock() {
+            *slot = Some(text);
+        }
+    }));
+}
+
+/// `catch_unwind` that returns the text recorded by the child's hook.
+pub fn catch_panic<T>(f: impl FnOnce() -> T) -> Result<T, String> {
+    match std::panic::catch_unwind(std::panic::AssertUnwindSafe(f)) {
+        Ok(v) => Ok(v),
+        Err(_) => Err(LAST_PANIC.lock().ok().and_then(|mut m| m.take()).unwrap_or_else(|| "<panic>".to_string())),
+    }
+}
 
 // ---------------------------------------------------------------- entries
 
@@ -75,7 +118,6 @@ pub struct Env {
     pub onnx: TmpFile,
     pub rten: TmpFile,
     pub ext_data: Vec<u8>,
-    pub pool: Arc<ThreadPool>,
 }
 
 pub const EXT_DATA_NAME: &str = "weights.data";
@@ -83,6 +125,14 @@ pub const EXT_DATA_LEN: usize = 4096;
 
 pub fn ext_data_bytes() -> Vec<u8> {
     (0..EXT_DATA_LEN).map(|i| ((i * 7 + 3) % 251) as u8).collect()
+}
+
+/// The thread pool used for running models. Created on first use, i.e. in
+/// the child: a pool created before the fork would have no worker threads
+/// there.
+fn run_pool() -> Arc<ThreadPool> {
+    static POOL: std::sync::OnceLock<Arc<ThreadPool>> = std::sync::OnceLock::new();
+    POOL.get_or_init(|| Arc::new(ThreadPool::with_num_threads(1))).clone()
 }
 
 impl Env {
@@ -96,7 +146,6 @@ impl Env {
             rten: TmpFile::create(&format!("{}/case.rten", dir)).expect("tmp rten"),
             dir,
             ext_data,
-            pool: Arc::new(ThreadPool::with_num_threads(1)),
         }
     }
     pub fn cleanup(&self) {
@@ -246,6 +295,7 @@ struct Walk {
     checksum: f64,
     /// Top-level constants that are well-formed: ids to request through run().
     top_ok: Vec<(NodeId, u128)>,
+    demonstrate: bool,
 }
 
 fn examine_constant(c: &Constant, what: &str, w: &mut Walk, region: Option<&Region>) -> bool {
@@ -259,7 +309,9 @@ fn examine_constant(c: &Constant, what: &str, w: &mut Walk, region: Option<&Regi
     };
     if !ok {
         w.bad.extend(bad);
-        return false;
+        if !w.demonstrate {
+            return false;
+        }
     }
     let n = checked_product(c.shape()).unwrap_or(0);
     if n > READ_CAP {
@@ -382,13 +434,25 @@ fn conforming_inputs(model: &Model) -> Result<Vec<(NodeId, ValueOrView<'static>)
 // ---------------------------------------------------------------- one entry
 
 pub struct ExecOpts {
+    /// Alarm (seconds) for one load call and everything up to the model run.
+    pub alarm_s: u32,
+    /// Alarm for the (unjudged) run of the model.
+    pub run_alarm_s: u32,
     /// Request well-formed top-level constants through run() (at most this many).
     pub const_outputs: usize,
     pub run_model: bool,
+    /// Use a malformed constant anyway (read its elements, run the model) to
+    /// show the consequence; only for the final, single-case execution.
+    pub demonstrate: bool,
 }
 
 fn load_entry(entry: u32, bytes: &[u8], is_rten_ext: bool, env: &Env) -> Result<Model, rten::LoadError> {
-    let mut opts = ModelOptions::with_all_ops();
+    // Building the operator registry costs far more than loading a small
+    // model; build it once per process (in the child) and clone the options.
+    thread_local! {
+        static BASE: ModelOptions = ModelOptions::with_all_ops();
+    }
+    let mut opts = BASE.with(|b| b.clone());
     match entry {
         E_BUF_NOOPT | E_FILE_NOOPT => {
             opts.enable_optimization(false);
@@ -434,9 +498,10 @@ pub fn exec_case(bytes: &[u8], mask: u32, rten_ext: bool, env: &Env, region: Opt
         if let Some(r) = region {
             r.set_stage(ST_LOAD, e);
         }
+        unsafe { libc::alarm(xo.alarm_s) };
         allocmon::set_refuse_above(allocmon::REFUSE_ABOVE);
         let t0 = std::time::Instant::now();
-        let (r, max_alloc) = allocmon::measure(|| catch(|| load_entry(e, bytes, rten_ext, env)));
+        let (r, max_alloc) = allocmon::measure(|| catch_panic(|| load_entry(e, bytes, rten_ext, env)));
         out.micros = t0.elapsed().as_micros() as u64;
         out.max_alloc = max_alloc as u64;
         match r {
@@ -467,14 +532,14 @@ pub fn exec_case(bytes: &[u8], mask: u32, rten_ext: bool, env: &Env, region: Opt
     outs
 }
 
-fn examine_model(model: &Model, e: u32, out: &mut EntryOut, env: &Env, region: Option<&Region>, xo: &ExecOpts) {
+fn examine_model(model: &Model, e: u32, out: &mut EntryOut, _env: &Env, region: Option<&Region>, xo: &ExecOpts) {
     if let Some(r) = region {
         r.set_stage(ST_WALK, e);
     }
-    let mut w = Walk { n_consts: 0, n_sub: 0, n_ops: 0, elems: 0, bad: Vec::new(), checksum: 0.0, top_ok: Vec::new() };
+    let mut w = Walk { n_consts: 0, n_sub: 0, n_ops: 0, elems: 0, bad: Vec::new(), checksum: 0.0, top_ok: Vec::new(), demonstrate: xo.demonstrate };
     // The walk itself only uses safe accessors; a panic here would be a
     // harness problem or a constant so broken that its accessors assert.
-    let walked = catch(|| walk_graph(rten::verif::model_graph(model), 0, "", &mut w, region));
+    let walked = catch_panic(|| walk_graph(rten::verif::model_graph(model), 0, "", &mut w, region));
     std::hint::black_box(w.checksum);
     out.n_consts = w.n_consts;
     out.n_sub_consts = w.n_sub;
@@ -486,6 +551,14 @@ fn examine_model(model: &Model, e: u32, out: &mut EntryOut, env: &Env, region: O
     }
     out.bad.truncate(8);
     let malformed = !out.bad.is_empty();
+    if let Some(r) = region {
+        r.hdr().aux2.store(out.bad.len() as u64, std::sync::atomic::Ordering::SeqCst);
+    }
+    if malformed && !xo.demonstrate {
+        // The finding is the malformed constant; using it is pointless danger.
+        out.run = "skipped:malformed_constant".into();
+        return;
+    }
 
     // From here on the model is *run*. Aborts in this phase are not judged on
     // their own, so large requests are refused early to protect the host.
@@ -499,8 +572,8 @@ fn examine_model(model: &Model, e: u32, out: &mut EntryOut, env: &Env, region: O
             if n > READ_CAP {
                 continue;
             }
-            let opts = RunOptions::default().with_thread_pool(Some(env.pool.clone()));
-            match catch(|| model.run(vec![], &[id], Some(opts))) {
+            let opts = RunOptions::default().with_thread_pool(Some(run_pool()));
+            match catch_panic(|| model.run(vec![], &[id], Some(opts))) {
                 Err(_) => out.const_out_panic += 1,
                 Ok(Err(_)) => out.const_out_err += 1,
                 Ok(Ok(vals)) => {
@@ -519,14 +592,15 @@ fn examine_model(model: &Model, e: u32, out: &mut EntryOut, env: &Env, region: O
         if let Some(r) = region {
             r.set_stage(ST_RUN, e);
         }
+        unsafe { libc::alarm(xo.run_alarm_s) };
         if w.n_ops > MAX_RUN_OPS {
             out.run = "skipped:too_many_ops".into();
         } else {
             match conforming_inputs(model) {
                 Err(why) => out.run = format!("skipped:{}", why),
                 Ok(inputs) => {
-                    let opts = RunOptions::default().with_thread_pool(Some(env.pool.clone()));
-                    match catch(|| model.run(inputs, model.output_ids(), Some(opts))) {
+                    let opts = RunOptions::default().with_thread_pool(Some(run_pool()));
+                    match catch_panic(|| model.run(inputs, model.output_ids(), Some(opts))) {
                         Err(p) => {
                             out.run = "panic".into();
                             out.run_msg = p.chars().take(160).collect();
@@ -543,4 +617,5 @@ fn examine_model(model: &Model, e: u32, out: &mut EntryOut, env: &Env, region: O
     }
     allocmon::end();
     allocmon::set_refuse_above(allocmon::REFUSE_ABOVE);
+    unsafe { libc::alarm(xo.alarm_s) };
 }
